@@ -110,7 +110,9 @@ def opInstance : Op := fun j => do
   let bc ← getCfg (← field j "cfg")
   let s ← getState bc.cfg (← field j "state")
   let base := [("blocks_ok", jBool (blocksOK bc.cfg s)), ("fresh", jBool (freshOK bc.cfg s)),
-               ("blocks_tile_grid", jBool (tilesFree bc.cfg s))]
+               ("blocks_tile_grid", jBool (tilesFree bc.cfg s)),
+               -- hypothesis of the C01 membership theorems: the blocks are numbered within 1 … num_blocks
+               ("blocks_bounded", jBool (decide (BlocksBounded bc.cfg s.blocks)))]
   let extra := if bc.byActions then [("solvable_by_actions", jBool (tilesByActions bc.cfg s))] else []
   pure (jObj (base ++ extra))
 
